@@ -12,9 +12,25 @@ import (
 
 func c08Counts(tier string) (bulk, large int) {
 	if tier == "thorough" {
-		return 3000, 24 + 2*len(c08Sizes(tier))
+		return 3000, 24 + 2*len(c08Sizes(tier)) + 2*len(c08GroupCounts(tier))
 	}
-	return 260, 4 + 2*len(c08Sizes(tier))
+	return 260, 4 + 2*len(c08Sizes(tier)) + 2*len(c08GroupCounts(tier))
+}
+
+// c08GroupCounts: number of shapes / of trips (each with a few rows, rows of different groups interleaved), swept over
+// the threshold list.
+func c08GroupCounts(tier string) []int {
+	max := 1100
+	if tier == "thorough" {
+		max = 4200
+	}
+	var out []int
+	for _, n := range core.Thresholds(max) {
+		if n >= 60 {
+			out = append(out, n)
+		}
+	}
+	return out
 }
 
 // c08Sizes: number of points of one shape / stop times of one trip, swept over the threshold list.
@@ -63,6 +79,16 @@ func runC08(c *core.Ctx) {
 		}
 		orders = []string{"as-generated", "shuffled", "round-robin"}
 		c.Feature("size-sweep")
+	} else if k := c.Index - 2*len(c08Sizes(c.Tier)); k < 2*len(c08GroupCounts(c.Tier)) {
+		n := c08GroupCounts(c.Tier)[k/2]
+		sz = sgen.Size{Agencies: 1, Routes: 1, Stops: 5, Transfers: 0, Calendars: 1, CalDates: 0, Shapes: 3, ShapePtsPer: 3, Trips: 3, Freqs: 0, StopTimesPer: 3, Exact: true}
+		if k%2 == 0 {
+			sz.Shapes = n
+		} else {
+			sz.Trips = n
+		}
+		orders = []string{"as-generated", "round-robin", "shuffled"}
+		c.Feature("group-count-sweep")
 	} else if c.Index < nLarge {
 		sz = sgen.Size{Agencies: 1, Routes: 5, Stops: 200, Transfers: 5, Calendars: 3, CalDates: 5, Shapes: 20, ShapePtsPer: 500, Trips: 500, Freqs: 5, StopTimesPer: 100, Exact: true}
 		orders = []string{"as-generated", "round-robin", "shuffled", "reversed"}
